@@ -35,6 +35,16 @@ func main() {
 		runCmd(os.Args[2:])
 	case "check":
 		checkCmd(os.Args[2:])
+	case "warm":
+		e, err := loadEngine("/repo", "/verif")
+		if e != nil {
+			e.Cleanup()
+		}
+		if err != nil {
+			fmt.Println("warm: load error:", err)
+			os.Exit(1)
+		}
+		fmt.Println("warm: packages loaded")
 	default:
 		fmt.Println("unknown command")
 		os.Exit(2)
